@@ -98,10 +98,16 @@ fn tail(s: &str) -> String {
 }
 
 pub fn materialise(spec: &CaseSpec, ex: &Exclusions) -> Case {
-    // 0-3 valid, 4-5 mutant, 6-8 raw damage, 9 cyclic
+    // 0-2 valid, 3 valid from the refetch-dense presets, 4-5 mutant, 6-8 raw damage, 9 cyclic
     let sel = (spec.variant as usize / 4) % 10;
     match sel {
-        0..=3 => cases::valid_case(spec, ex),
+        0..=2 => cases::valid_case(spec, ex),
+        3 => {
+            let cfg = if (spec.variant as usize / 40) % 2 == 0 { gen_project::GenConfig::client_graph().dense_refs() } else { gen_project::GenConfig::advanced().dense_refs() };
+            let project = gen_project::build_project(spec.tape.clone(), &cfg);
+            let rendered = gen_project::render(&project);
+            Case { kind: cases::Kind::Valid, tier: "dense-refs", project, rendered, mutation: None, note: String::new() }
+        }
         4 | 5 => cases::mutant_case(spec, ex).unwrap_or_else(|| cases::valid_case(spec, ex)),
         6..=8 => cases::raw_case(spec, ex),
         _ => cases::cyclic_case(spec, ex).unwrap_or_else(|| cases::raw_case(spec, ex)),
